@@ -33,6 +33,7 @@ type TB struct {
 	strLits     map[string]*Term
 	strLitList  []*Term
 	axioms      []*Term // background axioms asserted before everything else
+	onFresh     func(name string)
 }
 
 type structSort struct {
@@ -115,7 +116,11 @@ func (b *TB) Const(name, srt string) *Term {
 
 func (b *TB) Fresh(prefix, srt string) *Term {
 	b.nfresh++
-	return b.Const(fmt.Sprintf("%s!%d", sanitize(prefix), b.nfresh), srt)
+	t := b.Const(fmt.Sprintf("%s!%d", sanitize(prefix), b.nfresh), srt)
+	if b.onFresh != nil {
+		b.onFresh(t.op)
+	}
+	return t
 }
 
 // BoundVar is a quantifier-bound variable (never declared).
